@@ -1,6 +1,6 @@
 """C04 bitmap <-> string conversions: snprintf contract (R-SNP), asprintf shape, parser discipline."""
 from prog import Program
-import snp
+import snp, bitmaprules
 
 
 def run(chk, tier):
@@ -16,7 +16,19 @@ def run(chk, tier):
     snp.asprintf_shape(chk, P, "bitmap.c", [("hwloc_bitmap_asprintf", "hwloc_bitmap_snprintf"),
                                              ("hwloc_bitmap_list_asprintf", "hwloc_bitmap_list_snprintf"),
                                              ("hwloc_bitmap_taskset_asprintf", "hwloc_bitmap_taskset_snprintf")])
-    chk.decided += ["snprintf-style functions never write outside [buf,buf+buflen), NUL-terminate when buflen>0, return the untruncated length (structural: cursor typestate)",
+    chk.rule("R-DEFINE", "the three parsers define their destination before accumulating into it (result independent of previous contents)")
+    nd = bitmaprules.define_before_accumulate(chk, P, ["hwloc_bitmap_sscanf", "hwloc_bitmap_list_sscanf", "hwloc_bitmap_taskset_sscanf"])
+    chk.floor("R-DEFINE", "accumulating sites in the parsers", nd, 3)
+    chk.rule("R-NUL", "a scanner never hands p+k to a string function unless p[0..k-1] are known non-NUL")
+    nn = bitmaprules.nul_discipline(chk, P, "bitmap.c", ["hwloc_bitmap_sscanf", "hwloc_bitmap_list_sscanf", "hwloc_bitmap_taskset_sscanf"])
+    chk.floor("R-NUL", "p+k string-function arguments in the parsers", nn, 1)
+    for fn in ("hwloc_bitmap_sscanf", "hwloc_bitmap_list_sscanf", "hwloc_bitmap_taskset_sscanf"):
+        f = P.need_func(fn, "bitmap.c")
+        from prog import returns, cval
+        vals = [cval(r["c"][0]) for r in returns(f) if r.get("c")]
+        chk.inst("R-RET", f, "returns-0-or-minus-1", all(v in (0, -1) for v in vals) and len(vals) >= 2, "every return expression is the constant 0 or -1 (%s)" % vals)
+    chk.decided += ["parsing defines the destination first and never starts a string function past a terminator (scoped sites); returns 0 or -1",
+                    "snprintf-style functions never write outside [buf,buf+buflen), NUL-terminate when buflen>0, return the untruncated length (structural: cursor typestate)",
                     "asprintf produces the same text and length as snprintf (call shape)"]
     chk.undecided += ["print/parse round-trip equality and stability (value-level)"]
     chk.trusted += ["libc snprintf honours its size argument and returns the untruncated length",
